@@ -97,7 +97,7 @@ def finish(rep: Report) -> int:
     """Print the verdict, write evidence and replay files, return the exit code."""
     known, _fixed = load_known()
     prop = rep.prop
-    evdir = VERIF / "evidence"
+    evdir = Path(os.environ.get("VERIF_EVIDENCE_DIR") or (VERIF / "evidence"))
     (evdir / "replay").mkdir(parents=True, exist_ok=True)
     for old in (evdir / "replay").glob(f"{prop}-*.json"):
         old.unlink()
@@ -109,7 +109,7 @@ def finish(rep: Report) -> int:
     distinct = set()
     for r in rep.rules:
         n = len(r.obs)
-        if n < r.floor:
+        if n < r.floor and all(ob.ok for ob in r.obs):
             raise AnalysisError(
                 f"rule {prop}.{r.rid} ({r.title}) matched {n} instance(s), below its anchor floor {r.floor}: "
                 "the constructs it reasons about were not found"
@@ -158,7 +158,8 @@ def finish(rep: Report) -> int:
         }, indent=1, default=str))
         replay_paths.append(path)
         print(f"  violated {prop}.{ob.rule} key={ob.key}\n    at {ob.where}\n    {ob.what}")
-        print(f"VIOLATION property={prop} replay={path.relative_to(VERIF)}")
+        shown_path = path.relative_to(VERIF) if str(path).startswith(str(VERIF)) else path
+        print(f"VIOLATION property={prop} replay={shown_path}")
         samples.append(ob.as_dict("VIOLATED"))
 
     level = "other"
